@@ -8,6 +8,8 @@ import progcheck
 sys.path.insert(0, os.path.join(vlib.VERIF, "gen"))
 import progen  # noqa: E402
 import fixedprogs  # noqa: E402
+import corpus  # noqa: E402
+import random  # noqa: E402
 
 META = {
     "title": "Interpreter and native executable agree",
@@ -60,6 +62,20 @@ def run(chk, tier):
                         "status": fam.exp[p["id"]]["status"]})
         done += m
         k += 1
+    # the pinned corpus through the Obs monitor: interpreter at -Q0 is the reference observation
+    allnames = corpus.names()
+    rnd = random.Random(chk.seed)
+    # always: the programs about floats, exceptions, generators and abnormal ends; plus a seeded sample of the rest
+    always = [n for n in allnames if n.startswith(("float", "exn", "try", "mandel", "bigmand", "exit", "halt", "gener", "gfGener",
+                                                   "df", "fix", "ratio", "limits", "numeral", "lit"))]
+    sample = allnames if tier == "thorough" else sorted(set(always + rnd.sample(allnames, 50)))
+    clevels = [0, 2] if tier == "quick" else levels
+    cfgs = [("interp-Q0", "interp", ("-Q0",))]
+    for q in clevels:
+        if q != 0:
+            cfgs.append(("interp-Q%d" % q, "interp", ("-Q%d" % q,)))
+        cfgs.append(("c-Q%d" % q, "c", ("-Q%d" % q,)))
+    chk.extra["corpus"] = corpus.observe(chk, b, sample, cfgs, os.path.join(wd, "corpus"), "C03", "interp-Q0")
     chk.extra["programs_by_status"] = per
     chk.extra["routes"] = [r[0] for r in routes]
     chk.rule = ("generated programs (half of them with the halt feature forced on) x optimisation levels x {interpret source, interpret saved "
